@@ -16,3 +16,25 @@ package neo3
 //@   callsite[c18-operator] ValidateOwner#1 requires arg1 == gop
 //@   -- installing a trust root changes storage only with the operator's witness
 //@   ensures[c18-witness] Store != old(Store) ==> wit
+
+// ---- cross-chain message authentication (C24) -------------------------------------------------------
+//@ func VerifyCrossChainMsgSig
+//@   property C24
+//@   mode abstract
+//@   requires native != nil && crossChainMsg != nil
+//@   ghost var hashEq bool = false
+//@   ghost var gmsg Bytes
+//@   ghost var ginv Bytes
+//@   ghost var gver Bytes
+//@   ghost var gn int = 0
+//@   set after "n := len(pubKeys)" : gn := len(svStrings)
+//@   set before "msg, err := crossChainMsg.GetMessage(magic)" : hashEq := expected.Value1 == got.Value1 && expected.Value2 == got.Value2 && expected.Value3 == got.Value3
+//@   set after "msg, err := crossChainMsg.GetMessage(magic)" : gmsg := bytes(msg)
+//@   set after "invScript, err := crypto.Base64Decode(crossChainMsg.Witnesses[0].Invocation)" : ginv := bytes(invScript)
+//@   set after "verScript, err := crypto.Base64Decode(crossChainMsg.Witnesses[0].Verification)" : gver := bytes(verScript)
+//@   -- the expected signer script is the m-of-n contract over ALL registered state validators with m = n - (n-1)/3
+//@   callsite[c24-threshold] CreateMultiSigContract#1 requires arg0 == gn - (gn-1)/3 && len(arg1) == gn
+//@   -- accepted only if the message's script hash equals that expected script hash ...
+//@   ensures[c24-tracked-script] err == nil ==> hashEq
+//@   -- ... and the multi-signature witness built from the message's own scripts verifies the unsigned message
+//@   ensures[c24-witness] err == nil ==> neoWitnessOK(gmsg, ginv, gver)
